@@ -252,7 +252,14 @@ def main(argv=None):
     known = load_known()
 
     new, hit_known = [], {}
+    foreign = []
     for (p, mech), v in sorted(m["violations"].items()):
+        if p != prop:
+            # discrepancy that belongs to another property's check: it ends
+            # the history in which it was seen, is reported in evidence, and
+            # is decided by that property's own check
+            foreign.append("%s %s: %s" % (p, mech, v["what"][:160]))
+            continue
         k = match_known(v, known)
         if k is not None:
             hit_known.setdefault(k["id"], (k, v))
@@ -296,6 +303,7 @@ def main(argv=None):
             k["id"] for k in known
             if k["property"] == prop and k.get("status") == "open"),
         "new_violation_mechanisms": [v["mechanism"] for v in new],
+        "other_property_observations": foreign[:20],
         "violation_counts": dict(m["vcounts"]),
         "inconclusive_reasons": reasons,
     }
